@@ -109,6 +109,23 @@ theorem c14_limiter_config :
     refine ⟨if rate < 1000 then 1000 else rate, rfl, ?_, ?_⟩ <;> split <;> omega
 
 open KM.Gen.C14 in
+/-- **The configured limits are the enforced ones** (regenerated table + the statement's own floor):
+for every burst and rate an operator writes into the config file, the limiter `loadVerifyConfigFile`
+builds has exactly that burst and rate, raised to the floor (10, 1/s) only when they are below it —
+in particular a configured burst of 10…99 is *not* replaced by the default. The `judge` bounds bursts
+through a loader-built state with these `Spec.enforced…` values. -/
+theorem c14_configured_enforced (burst rate : Nat) :
+    effective limiterConfig.defaultBurst limiterConfig.clampBurst (some burst)
+      = some (Spec.enforcedBurst burst) ∧
+    effective limiterConfig.defaultRateMilli limiterConfig.clampRateMilli (some rate)
+      = some (Spec.enforcedRateMilli rate) := by
+  constructor
+  · show some (if burst < 10 then 10 else burst) = some (max burst 10)
+    congr 1; split <;> omega
+  · show some (if rate < 1000 then 1000 else rate) = some (max rate 1000)
+    congr 1; split <;> omega
+
+open KM.Gen.C14 in
 /-- **validateUserTOTP as read** (regenerated table): the statement order the model follows —
 spacing test and `lastCheckTime` update under the mutex, then lock-out test, 24 h reset, replay
 guard, the device loop (per enabled device `totpMatchedCounter`; a miss or a step not later than the
@@ -297,6 +314,45 @@ theorem c14_one_time {U : Type} [DecidableEq U] (m : U → Totp) (ops : List (U 
       simp only [upd, if_true] at hlt
       unfold step at hlt
       exact ⟨k1, k2, hk1, hk2, by omega⟩
+
+/-! ### the periodic state cleanup
+
+In the source `performStateCleanup` does not touch `totpLocalRateLimit` (the harness runs its real
+body between attempts and the run is compared with a model in which a pass changes nothing). What a
+cleanup *may* do to the table without breaking the property is stated here. -/
+
+/-- **Pruning is invisible exactly when nothing is counted**: deleting the limiter entry of a user
+who is past the spacing, has no lock-out pending and **no failure counted** changes the outcome of
+no later attempt, whatever comes (times non-decreasing, after year 1). -/
+theorem c14_prune_unobservable (s : Totp) (t : Int) (as : List Attempt)
+    (hp : prunable s t = true) (hz : goZeroTime + spacingNs ≤ t) (hnd : NonDecrA t as) :
+    outs step (pruned s) as = outs step s as := by
+  simp only [prunable, Bool.and_eq_true, decide_eq_true_eq] at hp
+  obtain ⟨⟨h1, h2⟩, h3⟩ := hp
+  have hsp := spacingNs_nonneg
+  refine sim_outs as ?_ hnd
+  refine ⟨rfl, ?_, Or.inr ⟨hz, h1⟩, Or.inr ⟨?_, h2⟩, Or.inr rfl⟩
+  · show 0 = s.failCount
+    omega
+  · show goZeroTime ≤ t
+    omega
+
+/-- four wrong codes, one cleanup pass 40 s later, a fifth wrong code, then the right one -/
+def pauseOps1 : List Attempt :=
+  (List.range 4).map (fun (i : Nat) => ⟨1000000000 * sec + (3 * (i : Int)) * sec, 33333333, none⟩)
+def pauseOps2 : List Attempt :=
+  [⟨1000000000 * sec + 52 * sec, 33333335, none⟩, ⟨1000000000 * sec + 55 * sec, 33333335, some 33333335⟩]
+
+/-- **Pruning an entry that counts failures breaks the lock-out** (the seeded change C14-4: cleanup
+deleted every entry that is "idle" — no lock-out pending, past the spacing — regardless of
+`failCount`): after four failures the entry is idle, deleting it makes the fifth failure the
+"first" and the right code is accepted, where the real history is `rejected` (5th) then `locked`. -/
+theorem c14_prune_counted_counterexample :
+    idle (finalS step Totp.init pauseOps1) (1000000000 * sec + 49 * sec) = true ∧
+    prunable (finalS step Totp.init pauseOps1) (1000000000 * sec + 49 * sec) = false ∧
+    outs step (finalS step Totp.init pauseOps1) pauseOps2 = [.rejected, .locked] ∧
+    outs step (pruned (finalS step Totp.init pauseOps1)) pauseOps2 = [.rejected, .accepted] := by
+  decide
 
 /-! ### the function as found -/
 
